@@ -53,6 +53,7 @@ func (t *Queue[T]) Add(value T, scheduledTime time.Time) (addedElement *QueueEle
 
 		return nil
 	}
+	verifAddHook(scheduledTime)
 
 	// acquire locks
 	t.heapMutex.Lock()
